@@ -113,6 +113,10 @@ def write_store(case):
     ids = np.array(g["ids"], dtype=g.get("id_dtype", "int64"))
     edges = np.array(g["edges"], dtype=ids.dtype).reshape(-1, 2)
     store = zarr.storage.MemoryStore()
+    if case.get("storepath"):
+        # a geff nested under a path inside a larger store
+        zarr.open_group(store, mode="w", zarr_format=fmt)
+        store = zarr.storage.StorePath(store, "outer/inner.geff")
     if case.get("writer") == "geff":
         from geff.core_io import write_arrays
 
@@ -234,6 +238,10 @@ def impl_group(case):
     out["errs"] = errs
     out["nsel"], out["esel"] = list(r.node_props), list(r.edge_props)
     out["answers"] = [res(lambda q=q: canon_inmem(r.build(mask_arr(q["nm"]), mask_arr(q["em"])))) for q in case["queries"]]
+    if case.get("rtm"):     # read_to_memory(node_props=…, edge_props=…) = the un-masked build of the same selection
+        from geff.core_io._base_read import read_to_memory
+
+        out["rtm"] = res(lambda: canon_inmem(read_to_memory(store, True, case["rtm"][0], case["rtm"][1])))
     if case.get("fresh"):   # the same queries on a fresh reader each: build must not depend on earlier builds
         fr = []
         for q in case["queries"]:
@@ -398,7 +406,7 @@ def exhaustive_groups(ck):
         for (a, b) in pairs:
             groups.append({"graph": g, "fmt": 2 + (len(groups) % 2), "writer": "direct",
                            "calls": [{"k": "n", "names": a}, {"k": "e", "names": b}], "queries": queries,
-                           "stream": "exhaustive"})
+                           "rtm": [a, b], "stream": "exhaustive"})
     return groups
 
 
@@ -455,7 +463,7 @@ def random_group(rng, big=False):
     nn, en = [p["name"] for p in g["nprops"]], [p["name"] for p in g["eprops"]]
     return {"graph": g, "fmt": rng.choice([2, 3]), "writer": writer, "calls": call_orders(rng, nn, en),
             "queries": [{"nm": rand_mask(rng, n), "em": rand_mask(rng, len(g["edges"]))} for _ in range(6)],
-            "fresh": rng.random() < 0.3, "stream": "random-big" if big else "random"}
+            "fresh": rng.random() < 0.3, "storepath": rng.random() < 0.15, "stream": "random-big" if big else "random"}
 
 
 def malformed_group(rng):
@@ -521,7 +529,7 @@ def fail_key(case, q, ans, full_ok):
 def judge(ck, case, im, mo, lean_spec):
     """im = implementation observations, mo = model answer (or None), lean_spec = Lean `restrict` on
     the implementation's full read (or None)"""
-    small = {k: case[k] for k in ("graph", "fmt", "writer", "calls")}
+    small = {k: case.get(k) for k in ("graph", "fmt", "writer", "calls", "storepath")}
     if "write_err" in im:
         ck.broken.append({"what": "corr C09:store-writer", "detail": {"case": small, "err": im["write_err"]}})
         return
@@ -530,12 +538,23 @@ def judge(ck, case, im, mo, lean_spec):
     if "init_err" in im or "err" in full:
         # the generated stores are valid geffs: the full read must work
         ck.case({**small, "q": None}, "full-read-raises", True)
-        ck.fail("C09:full-read-raises", f"GeffReader full read raised {im.get('init_err') or full['err']} on a valid store",
+        ck.fail("C09:full-read-raises-storepath" if case.get("storepath") else "C09:full-read-raises", f"GeffReader full read raised {im.get('init_err') or full['err']} on a valid store",
                 {**small, "queries": []}, im.get("init_err") or full, "ok")
         return
     full = full["ok"]
     closed = edges_closed(raw)
     nsel, esel = im["nsel"], im["esel"]
+    if "rtm" in im:
+        want = py_restrict(full, case["rtm"][0], case["rtm"][1], None, None)
+        ck.case({"rtm": case["rtm"], "graph_ids": raw["ids"], "fmt": case.get("fmt")}, case["stream"] + ":read_to_memory", bool(raw["ids"]))
+        if "err" in im["rtm"]:
+            ck.fail("C09:exception", f"read_to_memory(node_props, edge_props) raised {im['rtm']['err']} but the full read works",
+                    {**small, "queries": [{"nm": None, "em": None}]}, im["rtm"], "restriction of the full read")
+        else:
+            d = diff_class(case, im["rtm"]["ok"], want)
+            if d:
+                ck.fail("C09:" + d, f"read_to_memory with a property selection differs from the restriction of the full read in {d}",
+                        {**small, "queries": [{"nm": None, "em": None}]}, im["rtm"]["ok"], want)
     for qi, q in enumerate(case["queries"]):
         ans = im["answers"][qi]
         one = {**small, "queries": [q]}
